@@ -40,7 +40,13 @@ class Gen:
         rng = self.rng
         if depth == 0 or rng.random() < 0.15:
             return self.leaf()
-        k = rng.choice(["neg", "inv", "add", "sub", "mul", "mul", "mul", "scale", "rscale", "div", "pow", "linv", "rinv"])
+        k = rng.choice(["neg", "inv", "add", "sub", "mul", "mul", "mul", "scale", "rscale", "div", "pow", "linv", "rinv", "dotscale"])
+        if k == "dotscale":
+            # a scalar computed inside the expression (a NumPy scalar, not a Python number) scaling a pointer
+            a = self.gen(max(depth - 2, 0))
+            b = self.reshape(a)
+            cpt = self.gen(depth - 1)
+            return ("mul", ("dot", a, b), cpt) if rng.random() < 0.5 else ("mul", cpt, ("dot", a, b))
         if k in ("neg", "inv", "linv", "rinv"):
             return (k, self.gen(depth - 1))
         if k in ("add", "sub"):
@@ -66,7 +72,7 @@ class Gen:
             return a
         if a[0] in ("neg", "inv", "linv", "rinv"):
             return (a[0], self.reshape(a[1]))
-        if a[0] in ("add", "sub", "mul"):
+        if a[0] in ("add", "sub", "mul", "dot"):
             return (a[0], self.reshape(a[1]), self.reshape(a[2]))
         if a[0] == "div":
             return ("div", self.reshape(a[1])) + a[2:]
@@ -75,7 +81,7 @@ class Gen:
         return a
 
 
-PREC = {"add": 1, "sub": 1, "mul": 2, "div": 2, "neg": 3, "inv": 3, "pow": 4, "linv": 5, "rinv": 5, "normalized": 5,
+PREC = {"add": 1, "sub": 1, "mul": 2, "div": 2, "dot": 2, "neg": 3, "inv": 3, "pow": 4, "linv": 5, "rinv": 5, "normalized": 5,
         "name": 6, "special": 6, "num": 6}
 
 
@@ -108,6 +114,10 @@ def to_text(e, rng):
         return par(e[1], 1) + sp() + ("+" if k == "add" else "-") + sp() + par(e[2], 1, strict=True)
     if k == "mul":
         return par(e[1], 2) + sp() + "*" + sp() + par(e[2], 2, strict=True)
+    if k == "dot":
+        if rng.random() < 0.5:
+            return par(e[1], 2) + sp() + "@" + sp() + par(e[2], 2, strict=True)
+        return par(e[1], 5) + ".dot(" + to_text(e[2], rng) + ")"
     if k == "div":
         _, a, p, q, neg = e
         return par(a, 2) + sp() + "/" + sp() + par(("num", p, q, neg), 2, strict=True)
@@ -131,8 +141,8 @@ def to_coq(e):
         return f"(EInv {to_coq(e[1])})"
     if k in ("linv", "rinv", "normalized"):
         return f"(EMethod {to_coq(e[1])} {'M' + k.capitalize()})"
-    if k in ("add", "sub", "mul"):
-        return f"({ {'add': 'EAdd', 'sub': 'ESub', 'mul': 'EMul'}[k]} {to_coq(e[1])} {to_coq(e[2])})"
+    if k in ("add", "sub", "mul", "dot"):
+        return f"({ {'add': 'EAdd', 'sub': 'ESub', 'mul': 'EMul', 'dot': 'EDot'}[k]} {to_coq(e[1])} {to_coq(e[2])})"
     if k == "div":
         return f"(EDivNum {to_coq(e[1])} {e[2]} {e[3]} {c.b(e[4])})"
     if k == "pow":
@@ -233,7 +243,7 @@ def run(rep, tier, rng):
                 names, items, model_entries, text_parts, drawn = [], [], [], [], 0
                 for k in range(rng.randint(2, 5) if forced is None else 1 + len(forced)):
                     nm = "P%d" % k
-                    form = rng.choice(["bare", "bare", "assign", "method"]) if names else "bare"
+                    form = rng.choice(["bare", "bare", "assign", "method"]) if names else rng.choice(["bare", "bare", "method"])
                     if forced is not None and k >= 1:
                         form = "assign"
                     if form == "bare":
